@@ -64,38 +64,66 @@ theorem drop_at_start (pre post : List Nat) (bs : List (List Nat)) (i : Nat) (hi
   have hl : pre.length + ((bs.take i).flatten).length = (pre ++ (bs.take i).flatten).length := by simp
   rw [hl, List.drop_left]
 
-theorem encodeStreams_length (enc : List MEv → Except FErr (List Nat)) :
-    ∀ (es : List (List MEv)) (bs : List (List Nat)), encodeStreams enc es = .ok bs → bs.length = es.length
-  | [], bs, h => by simp [encodeStreams] at h; subst h; rfl
-  | e :: es, bs, h => by
+theorem encodeStreams_length (enc : List MEv → Except FErr (List Nat)) (base : Nat) :
+    ∀ (pos : Nat) (es : List (List MEv)) (bs : List (List Nat)), encodeStreams enc base pos es = .ok bs → bs.length = es.length
+  | _, [], bs, h => by simp [encodeStreams] at h; subst h; rfl
+  | pos, e :: es, bs, h => by
     simp only [encodeStreams] at h
     split at h
     · simp at h
-    · rename_i b hb
-      split at h
+    · split at h
       · simp at h
-      · rename_i bs' hbs
-        simp at h; subst h
-        simp [encodeStreams_length enc es bs' hbs]
+      · rename_i b hb
+        split at h
+        · simp at h
+        · rename_i bs' hbs
+          simp at h; subst h
+          simp [encodeStreams_length enc base _ es bs' hbs]
 
-theorem encodeStreams_get (enc : List MEv → Except FErr (List Nat)) :
-    ∀ (es : List (List MEv)) (bs : List (List Nat)), encodeStreams enc es = .ok bs →
+theorem encodeStreams_get (enc : List MEv → Except FErr (List Nat)) (base : Nat) :
+    ∀ (pos : Nat) (es : List (List MEv)) (bs : List (List Nat)), encodeStreams enc base pos es = .ok bs →
       ∀ (i : Nat) (hi : i < es.length) (hb : i < bs.length), enc es[i] = .ok bs[i]
-  | [], _, _, i, hi, _ => by simp at hi
-  | e :: es, bs, h, i, hi, hb => by
+  | _, [], _, _, i, hi, _ => by simp at hi
+  | pos, e :: es, bs, h, i, hi, hb => by
     simp only [encodeStreams] at h
     split at h
     · simp at h
-    · rename_i b hbe
+    · split at h
+      · simp at h
+      · rename_i b hbe
+        split at h
+        · simp at h
+        · rename_i bs' hbs
+          simp at h; subst h
+          cases i with
+          | zero => simpa using hbe
+          | succ i =>
+            simp only [List.getElem_cons_succ]
+            exact encodeStreams_get enc base _ es bs' hbs i (by simpa using hi) (by simpa using hb)
+
+/-- every stream that was converted starts at an offset that fits 16 bits -/
+theorem encodeStreams_starts (enc : List MEv → Except FErr (List Nat)) (base : Nat) :
+    ∀ (pos : Nat) (es : List (List MEv)) (bs : List (List Nat)), encodeStreams enc base pos es = .ok bs →
+      ∀ (i : Nat), i < bs.length → pos + ((bs.take i).flatten).length ≤ 65535 + base
+  | _, [], bs, h, i, hi => by simp [encodeStreams] at h; subst h; simp at hi
+  | pos, e :: es, bs, h, i, hi => by
+    simp only [encodeStreams] at h
+    split at h
+    · simp at h
+    · rename_i hpos
       split at h
       · simp at h
-      · rename_i bs' hbs
-        simp at h; subst h
-        cases i with
-        | zero => simpa using hbe
-        | succ i =>
-          simp only [List.getElem_cons_succ]
-          exact encodeStreams_get enc es bs' hbs i (by simpa using hi) (by simpa using hb)
+      · rename_i b hbe
+        split at h
+        · simp at h
+        · rename_i bs' hbs
+          simp at h; subst h
+          cases i with
+          | zero => simp; omega
+          | succ i =>
+            have := encodeStreams_starts enc base _ es bs' hbs i (by simpa using hi)
+            simp only [List.take_succ_cons, List.flatten_cons, List.length_append]
+            omega
 
 /-! ## bytes of the header -/
 
@@ -260,9 +288,10 @@ def hdrSize (c : Conv) (n : Nat) : Nat := 4 + 4 * n + (c.subList.length + c.macr
 theorem assemble_ok {c : Conv} {tl : List (Nat × List MEv)} {vol : Option String} {b : Built}
     (h : assemble c tl vol = .ok b) :
     ∃ ts ss ms,
-      encodeStreams (convertTrackChk c.subList.length c.macroList.length) (tl.map (·.2)) = .ok ts ∧
-      encodeStreams (convertTrackChk c.subList.length c.macroList.length) c.subList = .ok ss ∧
-      encodeStreams convertMacroTrack c.macroList = .ok ms ∧
+      encodeStreams (convertTrackChk c.subList.length c.macroList.length) (4 + 4 * tl.length) (hdrSize c tl.length) (tl.map (·.2)) = .ok ts ∧
+      encodeStreams (convertTrackChk c.subList.length c.macroList.length) (4 + 4 * tl.length)
+        (hdrSize c tl.length + ts.flatten.length) c.subList = .ok ss ∧
+      encodeStreams convertMacroTrack (4 + 4 * tl.length) (hdrSize c tl.length + ts.flatten.length + ss.flatten.length) c.macroList = .ok ms ∧
       hdrSize c tl.length < 65536 ∧
       b.conv = c ∧ b.trackList = tl ∧ b.trackStreams = ts ∧ b.subStreams = ss ∧ b.macroStreams = ms ∧
       b.seq = headerOf (4 + 4 * tl.length) (volByte vol) (tl.map (·.1))
@@ -297,12 +326,10 @@ theorem take_flatten_le (bs : List (List Nat)) (i : Nat) : ((bs.take i).flatten)
 /-- the recorded start of stream `i`, turned into a 16-bit offset from `dataBase` and read back,
 is the position where that stream begins -/
 theorem stream_at (pre post : List Nat) (bs : List (List Nat)) (i : Nat) (hi : i < bs.length) (dataBase : Nat)
-    (hdb : dataBase ≤ pre.length) (hpos : 0 < dataBase) (hlen : (pre ++ bs.flatten ++ post).length ≤ 65536) :
+    (hdb : dataBase ≤ pre.length) (hfit : pre.length + ((bs.take i).flatten).length ≤ 65535 + dataBase) :
     ∃ st, (startsFrom pre.length bs)[i]? = some st ∧
       (pre ++ bs.flatten ++ post).drop (dataBase + off16 st dataBase) = bs[i] ++ ((bs.drop (i + 1)).flatten ++ post) := by
   refine ⟨pre.length + ((bs.take i).flatten).length, startsFrom_get _ _ _ hi, ?_⟩
-  have hle := take_flatten_le bs i
-  simp only [List.length_append] at hlen
   rw [off16_eq _ _ (by omega) (by omega)]
   exact drop_at_start pre post bs i hi
 
@@ -330,21 +357,23 @@ theorem convertTrackChk_fits {nS nM : Nat} {es : List MEv} {bs : List Nat}
     · rename_i b hb; simp at h; subst h; exact hb
   · split at h <;> simp at h
 
-theorem encodeStreams_fits {nS nM : Nat} :
-    ∀ (es : List (List MEv)) (bs : List (List Nat)), encodeStreams (convertTrackChk nS nM) es = .ok bs →
+theorem encodeStreams_fits {nS nM : Nat} (base : Nat) :
+    ∀ (pos : Nat) (es : List (List MEv)) (bs : List (List Nat)), encodeStreams (convertTrackChk nS nM) base pos es = .ok bs →
       ∀ l ∈ es, l.all (idxFits nS nM) = true
-  | [], _, _, l, hl => by simp at hl
-  | e :: es, bs, h, l, hl => by
+  | _, [], _, _, l, hl => by simp at hl
+  | pos, e :: es, bs, h, l, hl => by
     simp only [encodeStreams] at h
     split at h
     · simp at h
-    · rename_i b hb
-      split at h
+    · split at h
       · simp at h
-      · rename_i bs' hbs
-        rcases List.mem_cons.mp hl with rfl | hl'
-        · exact (convertTrackChk_fits hb).1
-        · exact encodeStreams_fits es bs' hbs l hl'
+      · rename_i b hb
+        split at h
+        · simp at h
+        · rename_i bs' hbs
+          rcases List.mem_cons.mp hl with rfl | hl'
+          · exact (convertTrackChk_fits hb).1
+          · exact encodeStreams_fits base _ es bs' hbs l hl'
 
 /-! ## the used-data map -/
 
